@@ -729,14 +729,25 @@ def c01k(ctx):
             if not os_ or any(x.kind != "param" for x in os_):
                 ctx.fail(o, s_, "check_callee re-verifies its callee with a strictness that is not the one it was asked for (origins: %s)" % sorted(str(x) for x in os_))
         elif "execute_query" in b.name:
-            if not any(x.kind == "call" and (x.callee() or "").endswith("QueryCaller::pedantic_repair") for x in os_):
-                ctx.fail(o, s_, "execute_query does not hand the caller's pedantic_repair flag on to the queries its executor makes")
-            trues = [a for a, src in _flag_writes(b, s_.node["args"][3]) if (src.get("c") or {}).get("s") == "true" or (src.get("c") or {}).get("v") in (1, True)]
-            edges = [(sb, tb) for sb, tb, v, c in df.variant_edges(b, "::CallerKind") if v != "otherwise" and _variant_name(prog, c.adt, v) == "BackwardProjectionPropagation"]
+            # the strictness is computed where the kind test lives: in execute_query itself (older shape) or in the helper
+            # CallerInformation::pedantic_repair (since D19), which the repair sites use as well
+            helper = [x for x in os_ if x.kind == "call" and (x.callee() or "").endswith("CallerInformation::pedantic_repair")]
+            hb = b
+            if helper:
+                hb = ctx.touch(prog.body("CallerInformation::pedantic_repair"))
+                inner = [x for x in hb.calls_to(r"QueryCaller::pedantic_repair$")]
+                if not inner:
+                    ctx.fail(o, s_, "CallerInformation::pedantic_repair does not hand on the calling query's own strictness")
+                trues = [a for a in hb.assigns(lambda st: st["rv"]["k"] == "use" and (st["rv"]["op"].get("c") or {}).get("s") == "true" and st["lhs"][0] == 0)]
+            else:
+                if not any(x.kind == "call" and (x.callee() or "").endswith("QueryCaller::pedantic_repair") for x in os_):
+                    ctx.fail(o, s_, "execute_query does not hand the caller's pedantic_repair flag on to the queries its executor makes")
+                trues = [a for a, src in _flag_writes(b, s_.node["args"][3]) if (src.get("c") or {}).get("s") == "true" or (src.get("c") or {}).get("v") in (1, True)]
+            edges = [(sb, tb) for sb, tb, v, c in df.variant_edges(hb, "::CallerKind") if v != "otherwise" and _variant_name(prog, c.adt, v) == "BackwardProjectionPropagation"]
             if not edges:
-                ctx.fail(o, s_, "execute_query does not distinguish CallerKind::BackwardProjectionPropagation when choosing the strictness")
-            elif not any(any(a.bb == tb or (b.edge_dominates((sb, tb), a.bb) and a.bb in b.reachable([tb])) for sb, tb in edges) for a in trues):
-                ctx.fail(o, s_, "a recomputation triggered by backward projection is not strict (pedantic_repair is not `true` on the BackwardProjectionPropagation arm)")
+                ctx.fail(o, s_, "%s does not distinguish CallerKind::BackwardProjectionPropagation when choosing the strictness" % hb.name)
+            elif not any(any(a.bb == tb or (hb.edge_dominates((sb, tb), a.bb) and a.bb in hb.reachable([tb])) for sb, tb in edges) for a in trues):
+                ctx.fail(o, s_, "a repair / recomputation triggered by backward projection is not strict (pedantic_repair is not `true` on the BackwardProjectionPropagation arm of %s)" % hb.name)
         else:
             if any(x.kind == "const" for x in os_) and len(os_) == 1:
                 ctx.fail(o, s_, "%s fixes pedantic_repair to a constant" % b.name)
